@@ -695,6 +695,7 @@ pub fn damage_doc(t: &mut Tape, ty: &Ty, doc: &mut Value, what: Damage, alpha: &
     enum Site {
         Field(String),
         Leaf(Prim),
+        EnumLeaf(String),
     }
     fn walk(ty: &Ty, v: &Value, path: &mut Vec<PathEl>, out: &mut Vec<(Vec<PathEl>, Site)>, fields_wanted: bool) {
         let ir = ir();
@@ -730,7 +731,11 @@ pub fn damage_doc(t: &mut Tape, ty: &Ty, doc: &mut Value, what: Damage, alpha: &
             }
             Ty::Ref(n) => match &ir.defs[n] {
                 Def::Alias(i, _) => walk(i, v, path, out, fields_wanted),
-                Def::Enum(_) => {}
+                Def::Enum(_) => {
+                    if !fields_wanted && v.is_string() {
+                        out.push((path.clone(), Site::EnumLeaf(n.clone())));
+                    }
+                }
                 Def::Object(fields) => {
                     if let Value::Object(m) = v {
                         for (f, fty) in fields {
@@ -784,6 +789,13 @@ pub fn damage_doc(t: &mut Tape, ty: &Ty, doc: &mut Value, what: Damage, alpha: &
         Site::Leaf(p) => {
             let bad = undecodable(t, &Ty::Prim(p), alpha)?;
             let label = format!("{:?} leaf := {:?}", p, bad);
+            *cur = Value::String(bad);
+            Some(label)
+        }
+        Site::EnumLeaf(n) => {
+            // not an enum constant of any kind: lower case, blanks, punctuation
+            let bad = undecodable(t, &Ty::Ref(n.clone()), alpha)?;
+            let label = format!("enum {} leaf := {:?}", n, bad);
             *cur = Value::String(bad);
             Some(label)
         }
